@@ -42,6 +42,8 @@ type Case struct {
 	Ops      [][]any `json:"ops"`
 	// wheel: values whose execute callback blocks until ["release", value] (gated delivery)
 	Hold []int64 `json:"hold"`
+	// wheel: value -> the call the execute callback makes into the wheel when it runs with that value
+	React map[string][]any `json:"react"`
 	// wheel: string and int64 keys with the same digits; a second wheel alongside
 	SKeys     bool   `json:"skeys"`
 	N2        int    `json:"n2"`
@@ -67,7 +69,7 @@ type Step struct {
 	X     [][2]int64 `json:"x,omitempty"`     // two wheels / caches: callbacks of the OTHER one during this operation
 	XT    [][]any    `json:"xt,omitempty"`    // two caches: requests received by the OTHER cache's wheel
 	XKeys []int64    `json:"xkeys,omitempty"` // two caches: keys of the OTHER cache afterwards
-	Add   bool       `json:"add,omitempty"`
+	E     [][]any    `json:"e,omitempty"`     // wheel: the calls made by callbacks during this operation, in order
 }
 
 type Out struct {
@@ -221,6 +223,9 @@ type wheelInst struct {
 	gt      *gates
 	stopped bool
 	skeys   bool
+	react   map[string][]any
+	rmu     sync.Mutex
+	reacted [][]any
 }
 
 const nilValue = int64(-777)
@@ -263,8 +268,8 @@ func val(v any) any {
 	return num(v)
 }
 
-func newWheelInst(n int, interval int64, ticker string, hold []int64, skeys bool) (*wheelInst, error) {
-	w := &wheelInst{gt: newGates(hold), skeys: skeys}
+func newWheelInst(n int, interval int64, ticker string, hold []int64, skeys bool, react map[string][]any) (*wheelInst, error) {
+	w := &wheelInst{gt: newGates(hold), skeys: skeys, react: react}
 	var tk timex.Ticker
 	if ticker == "fake" {
 		w.fk = timex.NewFakeTicker()
@@ -278,19 +283,51 @@ func newWheelInst(n int, interval int64, ticker string, hold []int64, skeys bool
 	return w, err
 }
 
+// the call a callback makes into the wheel (re-entrancy); the result is not looked at
+func (w *wheelInst) reactTo(x int64) {
+	op, ok := w.react[strconv.FormatInt(x, 10)]
+	if !ok {
+		return
+	}
+	w.rmu.Lock()
+	w.reacted = append(w.reacted, op)
+	w.rmu.Unlock()
+	switch op[0].(string) {
+	case "set":
+		w.tw.SetTimer(w.key(op[1]), val(op[2]), time.Duration(num(op[3])))
+	case "move":
+		w.tw.MoveTimer(w.key(op[1]), time.Duration(num(op[2])))
+	case "remove":
+		w.tw.RemoveTimer(w.key(op[1]))
+	case "drain":
+		w.tw.Drain(w.drained)
+	}
+}
+
+func (w *wheelInst) takeReacted() [][]any {
+	w.rmu.Lock()
+	defer w.rmu.Unlock()
+	r := w.reacted
+	w.reacted = nil
+	return r
+}
+
 func (w *wheelInst) record(k, v any) {
 	x := unval(v)
 	w.fs.add(w.unkey(k), x)
 	w.gt.wait(x)
+	w.reactTo(x)
 	if x%1000 == 999 {
 		panic("verif: callback panics")
 	}
 }
 
-// Drain hands its callbacks to a bounded runner from inside the run loop: never gated
+// Drain hands its callbacks to a bounded runner (8 at a time) from inside the run loop: they
+// are gated too (the generator holds fewer than 8 values), but do not call back
 func (w *wheelInst) drained(k, v any) {
 	x := unval(v)
 	w.fs.add(w.unkey(k), x)
+	w.gt.wait(x)
 	if x%1000 == 999 {
 		panic("verif: callback panics")
 	}
@@ -356,7 +393,7 @@ func (w *wheelInst) do(op []any) int {
 // one wheel, or two wheels living side by side (operations ["@", index, op...])
 func runWheel(c Case) Out {
 	out := Out{ID: c.ID}
-	w0, err := newWheelInst(c.N, c.Interval, c.Ticker, c.Hold, c.SKeys)
+	w0, err := newWheelInst(c.N, c.Interval, c.Ticker, c.Hold, c.SKeys, c.React)
 	if err != nil {
 		out.Err = err.Error()
 		return out
@@ -364,7 +401,7 @@ func runWheel(c Case) Out {
 	defer w0.close()
 	ws := []*wheelInst{w0}
 	if c.N2 > 0 {
-		w1, err := newWheelInst(c.N2, c.Interval2, c.Ticker2, c.Hold, c.SKeys)
+		w1, err := newWheelInst(c.N2, c.Interval2, c.Ticker2, c.Hold, c.SKeys, nil)
 		if err != nil {
 			out.Err = err.Error()
 			return out
@@ -383,7 +420,7 @@ func runWheel(c Case) Out {
 			out.Err = "callbacks did not quiesce"
 			return out
 		}
-		st := Step{F: ws[target].fs.take(), R: r}
+		st := Step{F: ws[target].fs.take(), R: r, E: ws[target].takeReacted()}
 		if len(ws) > 1 {
 			st.X = ws[1-target].fs.take()
 		}
